@@ -90,6 +90,14 @@ CHECKS = {
          "(hand-written UISA table) are checked by execution on all structured decodable words; 30 classes whose text round trip fails are known findings."),
    note=TB + "No executable PowerPC reference is available offline: the opcode table in p_c18.py is hand-written. The per-class string code (str/asm) has no Gallina model.",
    design='4/C18'),
+ 'C04': dict(
+   technique='lifted IR regenerated from the working tree and evaluated with the extracted Coq denotation Expr.eval (standard bit-vector meaning), compared on boundary x random states with an SDM reference; Coq theorems on the arithmetic/logic group (see level text)',
+   text=("The lifted assignment lists of every integer-core form of the lift catalogue (one byte string per mnemonic x operand size x operand-shape signature; 8/16/32-bit register, immediate and memory operands; "
+         "32-bit addressing; prefixes none/66) are evaluated with the extracted Expr.eval (Expr.v: the standard meaning, all assignments reading the pre-state) on 6 (quick) / 40 (thorough) states per form and compared "
+         "with harness/x86ref.py, an executable reference written from the Intel SDM: 8 general registers, architecturally defined flags (undefined ones skipped), written bytes, next eip / taken-not-taken / pushed return address. "
+         "Deviations present on the unchanged tree are listed per (mnemonic, operand size, output, shift-count class) in known_findings.json; anything else is a violation with the state as replay."),
+   note=TB + "x86ref.py is a hand-written specification (reviewed against the SDM; not verified). Direct branch targets are taken as the operand value (the library resolves displacements before lifting). 16-bit control transfers, bit-string bt with register offsets on memory, divide errors are outside the reference.",
+   design='4/C04', category='other'),
  'C12': dict(
    technique='call histories on shared objects in one process; every answer compared with its pure answer (Gallina models Simp.v/EvalAbs.v, which are functions by construction; a fresh process for dis/lift/asm); input re-serialisation, table digests, parser-table cache modes',
    text=("The models of expr_simp / eval_expr / eval_instr are Gallina functions of their explicit arguments (trivially history-independent: props/C12.v); the property is about the implementation, so the check "
